@@ -101,4 +101,57 @@ theorem KeysNodup_insert (k : String) (v : Val) : ∀ {kvs : KVs}, KeysNodup kvs
       · exact hk hm.symm
       · exact h.1 hm
 
+/-! ### the typed layer -/
+
+theorem keysInDomain_perm {a b : KVs} (h : a.Perm b) : keysInDomain a = keysInDomain b := by
+  unfold keysInDomain
+  exact h.all_eq
+
+/-- the struct decode reads the raw object through look-ups only (and a test over all keys): it does not depend on the
+order of the keys -/
+theorem decodeFields_perm {a b : KVs} (h : a.Perm b) (hn : KeysNodup a) : decodeFields a = decodeFields b := by
+  have L : ∀ k, Val.lookup k a = Val.lookup k b := fun k => lookup_perm h hn
+  unfold decodeFields failClass rejects
+  simp only [strField, contentField, boolField, labelsField, strMapField, extField, strRejects, contentRejects, boolRejects,
+    labelsRejects, strMapRejects, extRejects, L, keysInDomain_perm h]
+  rfl
+
+theorem erase_eq_filter (k : String) : ∀ l : KVs, Val.erase k l = l.filter (fun kv => !(kv.1 == k))
+  | [] => rfl
+  | (k', v) :: r => by
+    by_cases h : k = k'
+    · subst h; simp [Val.erase, erase_eq_filter k r]
+    · have : (k' == k) = false := by simpa using fun h' => h h'.symm
+      simp [Val.erase, h, this, erase_eq_filter k r]
+
+theorem erase_perm (k : String) {a b : KVs} (h : a.Perm b) : (Val.erase k a).Perm (Val.erase k b) := by
+  rw [erase_eq_filter, erase_eq_filter]; exact h.filter _
+
+theorem KeysNodup_erase (k : String) {a : KVs} (h : KeysNodup a) : KeysNodup (Val.erase k a) := by
+  rw [erase_eq_filter]
+  exact h.sublist ((List.filter_sublist (l := a)).map Prod.fst)
+
+/-- `secretConfigDecoderHook` on permuted raw objects gives permuted raw objects -/
+theorem hook_perm {a b : KVs} (h : a.Perm b) (hn : KeysNodup a) : (hook a).Perm (hook b) ∧ KeysNodup (hook a) := by
+  unfold hook
+  rw [← lookup_perm (k := extKey) h hn]
+  split
+  · split
+    · have h1 := insert_perm "Content" (Val.str ‹String›) h hn
+      have n1 := KeysNodup_insert "Content" (Val.str ‹String›) hn
+      simp only
+      split
+      · exact ⟨erase_perm _ h1, KeysNodup_erase _ n1⟩
+      · exact ⟨insert_perm _ _ h1 n1, KeysNodup_insert _ _ n1⟩
+    · exact ⟨h, hn⟩
+  · exact ⟨h, hn⟩
+
+/-- the typed secret / config does not depend on the order of the keys of the raw object handed to the decode -/
+theorem decodeSecret_perm {a b : KVs} (h : a.Perm b) (hn : KeysNodup a) : decodeSecret (.map a) = decodeSecret (.map b) := by
+  simp only [decodeSecret]
+  exact decodeFields_perm (hook_perm h hn).1 (hook_perm h hn).2
+
+theorem decodeConfig_perm {a b : KVs} (h : a.Perm b) (hn : KeysNodup a) : decodeConfig (.map a) = decodeConfig (.map b) := by
+  simp only [decodeConfig]
+  exact decodeFields_perm h hn
 end CV.Secrets
